@@ -356,6 +356,8 @@ def mini_text(nb, seq, late):
     def alloc(b):
         lines.append(f"  %b{b} = memref.alloc() {{alignment = 8 : i64}} : {mt}")
         lines.append(f"  %v{b} = memref.subview %b{b}[4] [8] [1] : {mt} to {svt}")
+        # a second, sibling view of the same buffer (used by the uses of kind 'll'): every view counts for the lifetime
+        lines.append(f"  %w{b} = memref.subview %b{b}[4] [8] [1] : {mt} to {svt}")
         allocated.add(b)
 
     if not late:
@@ -379,7 +381,7 @@ def mini_text(nb, seq, late):
         else:
             lines.append(f"  scf.for %i{tag} = %c0 to %c2 step %c1 {{")
             lines.append(f"    scf.for %j{tag} = %c0 to %c2 step %c1 {{")
-            lines.append(f'      "test.op"(%v{b}) {{verif.id = {tag} : i32}} : ({svt}) -> ()')
+            lines.append(f'      "test.op"(%w{b}) {{verif.id = {tag} : i32}} : ({svt}) -> ()')
             lines.append("    }")
             lines.append("  }")
     return "builtin.module {\nfunc.func @f() {\n" + "\n".join(lines) + "\n  func.return\n}\n}\n"
